@@ -337,3 +337,68 @@ pub fn cmd_acc(args: &crate::Args) -> String {
         Err(_) => "err".into(),
     }
 }
+
+// ---- `accv`: toml::Value looked at through its read API only (Model/AccessorsToml.v acc_tv) ----
+fn tv_head(v: &toml::Value) -> String {
+    use toml::Value as V;
+    let flags: String = [v.is_str(), v.is_integer(), v.is_float(), v.is_bool(), v.is_datetime(), v.is_array(), v.is_table()]
+        .iter().map(|b| bit(*b)).collect();
+    let probes = [
+        V::String(String::new()), V::Integer(0), V::Float(0.0), V::Boolean(false),
+        V::Datetime("00:00:00".parse().unwrap()), V::Array(Vec::new()), V::Table(toml::Table::new()),
+    ];
+    let same: String = probes.iter().map(|p| bit(v.same_type(p))).collect();
+    let mut pl = Vec::new();
+    if let Some(s) = v.as_str() { pl.push(format!("s:{}", hex(s.as_bytes()))); }
+    if let Some(i) = v.as_integer() { pl.push(format!("i:{i}")); }
+    if v.as_float().is_some() { pl.push("f:?".to_string()); }
+    if let Some(b) = v.as_bool() { pl.push(format!("b:{b}")); }
+    if let Some(d) = v.as_datetime() { pl.push(show_datetime(d)); }
+    if let Some(a) = v.as_array() { pl.push(format!("n:{}", a.len())); }
+    if let Some(t) = v.as_table() { pl.push(format!("m:{}", t.len())); }
+    format!("{}/{}/{}/{}", us(v.type_str()), flags, same, plus_join(pl))
+}
+
+fn acc_tv(v: &toml::Value) -> String {
+    let mut s = tv_head(v);
+    if let Some(a) = v.as_array() {
+        let parts: Vec<String> = a
+            .iter()
+            .enumerate()
+            .map(|(i, e)| format!("{}@{}", acc_tv(e), show_tn(v.get(i).map(|x| x.type_str()))))
+            .collect();
+        s.push_str(&format!("[{}]{}", parts.join(","), show_tn(v.get(a.len()).map(|x| x.type_str()))));
+    }
+    if let Some(t) = v.as_table() {
+        let parts: Vec<String> = t
+            .iter()
+            .map(|(k, e)| {
+                // str, String, &str, &String must answer alike
+                let g = v.get(k.as_str());
+                let g2 = v.get(k.clone());
+                let g3 = v.get(&k.as_str());
+                let g4 = v.get(k);
+                let same = |x: Option<&toml::Value>, y: Option<&toml::Value>| match (x, y) {
+                    (Some(p), Some(q)) => std::ptr::eq(p, q),
+                    (None, None) => true,
+                    _ => false,
+                };
+                assert!(same(g, g2) && same(g, g3) && same(g, g4), "Value::get disagrees between str / String / &T");
+                format!("{}={}@{}", hex(k.as_bytes()), acc_tv(e), show_tn(g.map(|x| x.type_str())))
+            })
+            .collect();
+        s.push_str(&format!("{{{}}}", parts.join(",")));
+    }
+    s
+}
+
+pub fn cmd_accv(args: &crate::Args) -> String {
+    let s = match std::str::from_utf8(&args[0]) {
+        Ok(s) => s,
+        Err(_) => return "not-utf8".into(),
+    };
+    match toml::from_str::<toml::Value>(s) {
+        Ok(v) => format!("ok accv={}", acc_tv(&v)),
+        Err(_) => "err".into(),
+    }
+}
